@@ -848,30 +848,3 @@ pub fn k_zip_count<'a>(p: &P<'a>) {
         .embedded_output("out0");
     p.embedded_input::<i64>("in0").embedded_output("out1");
 }
-
-pub fn k_bounded_join_unbounded_count<'a>(p: &P<'a>) {
-    // `bounded.join(unbounded)` is typed Bounded (result boundedness = left side's), although it
-    // keeps growing with the unbounded right side; bounded consumers (count -> fold_no_replay) are
-    // then compiled for a one-shot collection
-    let b = p.source_iter(q!(vec![(1i64, 6i64), (1, 7)]));
-    b.join(p.embedded_input::<(i64, i64)>("in0"))
-        .count()
-        .into_stream()
-        .embedded_output("out0");
-}
-
-pub fn k_bounded_join_unbounded_selfjoin<'a>(p: &P<'a>) {
-    // the mis-typed "bounded" join result used as the (bounded) build side of another join: the
-    // code generator picks join_multiset_half without replay suppression / symmetric state
-    let b = p.source_iter(q!(vec![(1i64, 6i64), (1, 7)]));
-    let j = b
-        .join(p.embedded_input::<(i64, i64)>("in0"))
-        .map(q!(|(k, (a, b))| (k, a * 10 + b)));
-    obs_bag_b(j.clone().join(j), "out0");
-}
-
-/// like obs_bag, for collections that are *typed* bounded
-pub fn obs_bag_b<'a, T, O: Ordering>(s: Stream<T, P<'a>, Bounded, O, ExactlyOnce>, name: &str) {
-    s.assume_ordering::<TotalOrder>(nondet!(/** terminal observation adapter: compared as a multiset */))
-        .embedded_output(name);
-}
